@@ -14,7 +14,7 @@ import (
 // the observable of some sequential order of the same operations (computed with the real
 // code as its own sequential specification); no deadlock; no panic.
 
-const c03Group = 96
+const c03Group = 256
 
 func init() {
 	register(&propDef{
@@ -23,11 +23,11 @@ func init() {
 			{Name: "l1-programs", Fn: scnC03L1, Weight: 1, Group: c03Group},
 		},
 		Rule: "tape-generated concurrent programs (2-4 tasks, <=8 tracker operations) x schedules " +
-			"(baseline, systematic single-preemption sweep over (task, point), PCT d<=3, random, biased); " +
+			"(baseline, systematic single-preemption sweep over (tasks completed first, preempted task, point), PCT d<=3, random, biased); " +
 			"non-trivial = at least one preemption of a task that was still runnable (a context switch inside an operation sequence); " +
 			"distinct = distinct (program hash, schedule hash)",
-		Quick: 16 * c03Group, Thorough: 600 * c03Group,
-		Race: true, RaceQuick: 4 * c03Group, RaceThorough: 100 * c03Group,
+		Quick: 24 * c03Group, Thorough: 1500 * c03Group,
+		Race: true, RaceQuick: 2 * c03Group, RaceThorough: 100 * c03Group,
 	})
 }
 
@@ -70,7 +70,14 @@ func genC03Program(t *simrt.Tape) *c03Program {
 	for i := 0; i < len(s0.Events)-1; i++ {
 		evs = append(evs, L1Op{Kind: "event", S: 0, E: i})
 	}
-	p.Prog = append(p.Prog, evs)
+	if len(evs) >= 2 && t.Choose(3, "split.s0") == 0 {
+		// the reassembler hands events to the correlator from two goroutines (record push
+		// and time-out maintenance): events of one session delivered by two tasks
+		k := 1 + t.Choose(len(evs)-1, "split.at")
+		p.Prog = append(p.Prog, evs[:k], evs[k:])
+	} else {
+		p.Prog = append(p.Prog, evs)
+	}
 	p.Probes = append(p.Probes, L1Op{Kind: "event", S: 0, E: len(s0.Events) - 1})
 	if nSess > 1 {
 		s1 := w.Sessions[1]
@@ -119,9 +126,13 @@ func scnC03L1(rc *RunCtx) {
 	case rc.Sub == 0:
 		rc.Sim.Policy = simrt.PolicyRunToBlock
 		sched = "baseline"
-	case rc.Sub <= 4*14:
-		k := (rc.Sub - 1) % 4
-		j := (rc.Sub - 1) / 4
+	case rc.Sub <= 4*3*14:
+		// systematic single-preemption sweep: `before` other tasks run to completion, then
+		// task k runs j steps, then everybody else runs to completion, then k resumes
+		x := rc.Sub - 1
+		k := x % 4
+		before := (x / 4) % 3
+		j := x / 12
 		if k >= len(p.Prog) {
 			k = k % len(p.Prog)
 			j += 14
@@ -129,7 +140,8 @@ func scnC03L1(rc *RunCtx) {
 		rc.Sim.Policy = simrt.PolicySweep
 		rc.Sim.SweepTask = fmt.Sprintf("T%d", k)
 		rc.Sim.SweepAt = j + 1
-		sched = fmt.Sprintf("sweep(T%d@%d)", k, j+1)
+		rc.Sim.SweepBefore = before
+		sched = fmt.Sprintf("sweep(%d tasks first, then T%d@%d)", before, k, j+1)
 	default:
 		sched = pickPolicy(rc, 60)
 	}
